@@ -40,8 +40,21 @@ theorem resolveEach_noop (ops : SpecOps σ K) (sett : Settings) (rs : Seq → Se
 theorem evalAt_untouched (ops : SpecOps σ K) (c : σ) (s : Seq) (st : St σ K) :
     Untouched st (evalAt ops c s st).2 := ⟨rfl, rfl⟩
 
-theorem finalCheck_untouched (ops : SpecOps σ K) (s : Seq) (cs : List σ) (st : St σ K) :
-    Untouched st (finalCheck ops s cs st).2 := by
+theorem evaluateAll_untouched (ops : SpecOps σ K) (s : Seq) (cs : List σ) (st : St σ K) :
+    Untouched st (evaluateAll ops s cs st).2 := by
+  induction cs generalizing st with
+  | nil => exact ⟨rfl, rfl⟩
+  | cons c cs ih =>
+    simp only [evaluateAll]
+    cases hev : evalAt ops c s st with
+    | mk r st1 =>
+      have h1 : Untouched st st1 := by have := evalAt_untouched ops c s st; rw [hev] at this; exact this
+      cases r with
+      | error e => exact h1
+      | ok e => have := ih st1; exact ⟨this.1.trans h1.1, this.2.trans h1.2⟩
+
+theorem finalCheck_untouched (ops : SpecOps σ K) (s : Seq) (all cs : List σ) (st : St σ K) :
+    Untouched st (finalCheck ops s all cs st).2 := by
   induction cs generalizing st with
   | nil => exact ⟨rfl, rfl⟩
   | cons c cs ih =>
@@ -55,7 +68,13 @@ theorem finalCheck_untouched (ops : SpecOps σ K) (s : Seq) (cs : List σ) (st :
         simp only
         split
         · have := ih st1; exact ⟨this.1.trans h1.1, this.2.trans h1.2⟩
-        · exact h1
+        · have h2 := evaluateAll_untouched ops s all st1
+          cases hall : evaluateAll ops s all st1 with
+          | mk r2 st2 =>
+            rw [hall] at h2
+            cases r2 with
+            | error e' => exact ⟨h2.1.trans h1.1, h2.2.trans h1.2⟩
+            | ok u => exact ⟨h2.1.trans h1.1, h2.2.trans h1.2⟩
 
 /-- **`resolve_constraints()` on a problem whose (non-enforced) constraints already pass changes
     nothing and draws no random number** — whatever the settings, for every tape; the sequence is
@@ -74,7 +93,7 @@ theorem resolve_noop (ops : SpecOps σ K) (sett : Settings) (F : Frame σ) (s : 
     obtain ⟨st1, h1, u1⟩ := resolveEach_noop ops sett id F _ s st hall
     rw [h1]
     simp only [if_true]
-    have u2 := finalCheck_untouched ops s F.constraints st1
+    have u2 := finalCheck_untouched ops s F.constraints F.constraints st1
     exact ⟨_, _, rfl, u2.1.trans u1.1, u2.2.trans u1.2⟩
 
 /-- repeating the call any number of times still changes nothing -/
@@ -103,7 +122,7 @@ theorem optimizeEach_noop (ops : SpecOps σ K) (sett : Settings) (F : Frame σ) 
     obtain ⟨e, b, he, hb, heq⟩ := h o (by simp) st.nEval
     obtain ⟨st2, h2, u2⟩ := ih { st with nEval := st.nEval + 1 } (fun d hd => h d (by simp [hd]))
     refine ⟨st2, ?_, u2.1, u2.2⟩
-    simp [optimizeEach, optimizeObjective, evalAt, he, liftFault, hb, heq, h2]
+    simp [optimizeEach, optimizeObjective, atBest, evalAt, he, liftFault, hb, heq, h2]
 
 /-- **`optimize()` on a problem whose objectives are all at their best possible score changes
     nothing and draws no random number** -/
